@@ -7,6 +7,7 @@ import (
 	"strconv"
 	"strings"
 	"sync"
+	"time"
 
 	"github.com/samaritan-proxy/samaritan/host"
 	"github.com/samaritan-proxy/samaritan/proc/verifexport"
@@ -121,6 +122,88 @@ func (c15) Exec(op string) string {
 		return "bad-op"
 	}
 	switch f[0] {
+	case "c15.swap":
+		// c15.swap <main> <backup> <rounds> <mode>: readers poll the usable list while the set is replaced by an equal list
+		// (mode r: ReplaceAll) or a batch of main hosts is added to a backup-only set (mode a)
+		//   -> odd=<number of observed lists that are neither the list before nor the list after the call>
+		if len(f) != 5 {
+			return "bad-op"
+		}
+		nm, e1 := strconv.Atoi(f[1])
+		nb, e2 := strconv.Atoi(f[2])
+		rounds, e3 := strconv.Atoi(f[3])
+		if e1 != nil || e2 != nil || e3 != nil || nm < 1 || nm > 2000 || nb < 0 || nb > 2000 || rounds < 1 || rounds > 200 {
+			return "bad-op"
+		}
+		return recoverStr(func() string {
+			mk := func() (main, backup []*host.Host) {
+				for i := 0; i < nm; i++ {
+					main = append(main, host.NewWithType(fmt.Sprintf("10.0.%d.%d:1", i/250, i%250), host.TypeMain))
+				}
+				for i := 0; i < nb; i++ {
+					backup = append(backup, host.NewWithType(fmt.Sprintf("10.1.%d.%d:1", i/250, i%250), host.TypeBackup))
+				}
+				return
+			}
+			key := func(hs []*host.Host) string {
+				var sb strings.Builder
+				for _, h := range hs {
+					sb.WriteString(h.Addr)
+					sb.WriteByte(h.Type.String()[0])
+					sb.WriteByte(',')
+				}
+				return sb.String()
+			}
+			odd := 0
+			for r := 0; r < rounds; r++ {
+				main, backup := mk()
+				s := host.NewSet()
+				var before string
+				if f[4] == "a" {
+					s.Add(backup...)
+				} else {
+					s.Add(append(append([]*host.Host{}, main...), backup...)...)
+				}
+				before = key(s.Healthy())
+				stop := make(chan struct{})
+				var wg sync.WaitGroup
+				var mu sync.Mutex
+				seen := map[string]struct{}{}
+				for g := 0; g < 3; g++ {
+					wg.Add(1)
+					go func() {
+						defer wg.Done()
+						for {
+							select {
+							case <-stop:
+								return
+							default:
+							}
+							k := key(s.Healthy())
+							mu.Lock()
+							seen[k] = struct{}{}
+							mu.Unlock()
+						}
+					}()
+				}
+				time.Sleep(time.Millisecond)
+				if f[4] == "a" {
+					s.Add(main...)
+				} else {
+					m2, b2 := mk()
+					s.ReplaceAll(append(m2, b2...))
+				}
+				after := key(s.Healthy())
+				close(stop)
+				wg.Wait()
+				for k := range seen {
+					if k != before && k != after {
+						odd++
+					}
+				}
+			}
+			return fmt.Sprintf("odd=%d", odd)
+		})
 	case "c15.set":
 		return recoverStr(func() string {
 			t := &objTable{objs: map[int]*host.Host{}, ids: map[*host.Host]int{}}
@@ -304,6 +387,10 @@ func (c15) Exec(op string) string {
 }
 
 func (c15) Gen(r *hx.Run) {
+	// readers during ReplaceAll / a batch Add
+	for _, op := range []string{"c15.swap 300 300 4 r", "c15.swap 40 0 6 r", "c15.swap 200 100 4 a", "c15.swap 3 2 20 r"} {
+		r.Do(op, true, "readers-during-replace")
+	}
 	c15{}.genSets(r, r.N(2500, 60000))
 	c15{}.genHC(r)
 }
